@@ -237,7 +237,7 @@ theorem C03_pairing_scion (G : Nat → ExStamps) (H Srv : List Nat) (k : Nat)
       cfg.deadlineSet 0 0 evs = .accepted a n := hres
   obtain ⟨d, cRx, b, hm, hc⟩ := runLoop_accepted _ _ _ _ _ _ _ hres'
   obtain ⟨_, _, _, _, s1, s2, s3, s4, _, hn⟩ := classifySCION_accept _ _ _ _ _ _ _ _ hc
-  obtain ⟨hu, hcrx, hupd⟩ := C03_pairing_stage G H Srv k cfg prev reference now cTx1 (scionRxTime d cRx)
+  obtain ⟨hu, hcrx, hupd⟩ := C03_pairing_stage G H Srv k cfg prev reference now cTx1 (scionRxTime d cTx1 cRx)
     d.payload a href hco hsub a1 a2 (a4 d cRx b hm ⟨s1, s2, s3, s4⟩) hn
   refine ⟨hu, ?_⟩
   intro h1 h2
